@@ -40,6 +40,9 @@ let get_page (t : pagetab) (a : string) (addr : BinNums.coq_N) : gp =
   match Hashtbl.find_opt t.tab k with Some g -> g | None -> raise (Unprobed k)
 
 let pinned = (Sys.getenv_opt "VERIF_C12_PINNED" = Some "1")
+let lazy_nul = (Sys.getenv_opt "VERIF_C12_LAZY_NUL" = Some "1")
+(* KDUMP_KPHYSADDR, KDUMP_MACHPHYSADDR, KDUMP_KVADDR *)
+let valid_as (a : string) : bool = (a = "0" || a = "1" || a = "2")
 let fill = n_of_int 0xa5
 let flag b = if b then "1" else "0"
 
@@ -54,7 +57,7 @@ let run_item (mode : string) (t : pagetab) (item : string) : string =
       if mode = "R" then begin
         let len = int_of_string ("0x" ^ third) in
         let buf = Stdlib.List.init len (fun _ -> fill) in
-        match read_locked t.ps (get_page t a) (nat_of_int (len + 1)) addr (n_of_int len) buf with
+        match read_locked t.ps (get_page t a) (valid_as a) (nat_of_int (len + 1)) addr (n_of_int len) buf with
         | RDone r ->
             let pl = int_of_n r.rr_plength in
             let got = Stdlib.List.filteri (fun i _ -> i < pl) r.rr_buffer in
@@ -67,7 +70,7 @@ let run_item (mode : string) (t : pagetab) (item : string) : string =
               (if balanced then "" else ",PAGE-REFS-UNBALANCED")
         | ROutOfFuel -> "OUT-OF-FUEL" | ROob -> "OOB" | RDivZero -> "DIV-ZERO"
       end else begin
-        match read_string_locked t.ps (get_page t a) (not pinned) (nat_of_int 4096) addr (oracle_of third) with
+        match read_string_locked t.ps (get_page t a) (not pinned) lazy_nul (valid_as a) (nat_of_int 4096) addr (oracle_of third) with
         | SDone r ->
             let live = outstanding r.sr_events [] in
             let live = match r.sr_string with
@@ -78,6 +81,7 @@ let run_item (mode : string) (t : pagetab) (item : string) : string =
               (match r.sr_string with Some (_, s) -> hex_of_bytes s | None -> "-")
               (if balanced then "" else ",PAGE-REFS-UNBALANCED")
         | SOutOfFuel -> "OUT-OF-FUEL" | SOob -> "OOB" | SDivZero -> "DIV-ZERO"
+        | SOverrun -> "OVERRUN (write past the block granted by realloc)"
       end
   | _ -> failwith ("bad item " ^ item)
 
@@ -101,6 +105,21 @@ let spec_case (line : string) : string =
        | [a; addr; third], st :: rest ->
            let addr = n_of_hex addr and gp = get_page t a in
            (try
+             if not (valid_as a) then begin
+               (* an address space outside the enumeration: nothing can be delivered *)
+               if st = "0" then "success for an address space outside the enumeration"
+               else if mode = "R" then
+                 (match rest with
+                  | [pl; untouched; _; _] ->
+                      if pl <> "0" then "failure reports " ^ pl ^ " delivered bytes although nothing was delivered"
+                      else if untouched <> "1" then "buffer modified although nothing was delivered"
+                      else "ok"
+                  | _ -> "malformed answer " ^ ans)
+               else
+                 (match rest with
+                  | [_; leak; _] -> if leak <> "0" then "string block leaked" else "ok"
+                  | _ -> "malformed answer " ^ ans)
+             end else
              if mode = "R" then begin
                match rest with
                | [pl; untouched; _msg; hex] ->
